@@ -29,8 +29,7 @@ func init() {
 		"log/slog.Debug", "log/slog.Info", "log/slog.Warn", "log/slog.Error",
 		"(*log/slog.Logger).Debug", "(*log/slog.Logger).Info", "(*log/slog.Logger).Warn", "(*log/slog.Logger).Error",
 		"log.Printf", "log.Println", "log.Print", "fmt.Printf", "fmt.Println", "fmt.Print",
-		"(*sync.Mutex).Lock", "(*sync.Mutex).Unlock", "(*sync.RWMutex).Lock", "(*sync.RWMutex).Unlock",
-		"(*sync.RWMutex).RLock", "(*sync.RWMutex).RUnlock", "log/slog.SetDefault", "log/slog.SetLogLoggerLevel",
+		"log/slog.SetDefault", "log/slog.SetLogLoggerLevel",
 	} {
 		models[n] = noop
 	}
@@ -376,9 +375,12 @@ func init() {
 			break
 		}
 		if t, ok := (*flag).(*Term); ok && t.IsConst() && t.k == 0 {
+			it.inOnce[p.P]++
 			it.callFn(fr, args[1], nil, nil)
+			it.inOnce[p.P]--
 			it.storeSlot(flag, it.ctx.BV(1, t.w))
 		}
+		it.onceDone[p.P] = true
 		return nil
 	}
 }
@@ -1319,5 +1321,132 @@ func init() {
 			}
 		}
 		return Iface{}
+	}
+}
+
+// ---- lock discipline (C20) ----------------------------------------------------------------------
+// Mutexes are tracked by the slot of the sync.Mutex value. verifWatch(p, mu) registers every field
+// slot of *p (except mutexes) as shared state guarded by *mu: each load/store of such a slot while
+// the mutex is not held is reported. verifWatchRO(p) registers slots that must never be written.
+// verifWatchOnce(p, once) registers a global that may only be touched inside once.Do or after it.
+
+type watchInfo struct {
+	name string
+	mu   *Value // guarding mutex slot (nil for read-only / once watches)
+	ro   bool
+	once *Value
+}
+
+func init() {
+	lock := func(delta int) modelFn {
+		return func(it *Interp, fr *frame, args []Value, fn *ssa.Function) Value {
+			p, ok := args[0].(Ptr)
+			if !ok || p.P == nil {
+				it.rtPanic("nil mutex")
+			}
+			it.held[p.P] += delta
+			if it.held[p.P] < 0 {
+				panic(goPanic{Msg: "sync: unlock of unlocked mutex"})
+			}
+			if delta > 0 && it.held[p.P] > 1 {
+				it.findings = append(it.findings, Finding{Kind: "assert", Label: "mutex locked twice by the same call (self-deadlock)", Inputs: it.safeModelInputs()})
+			}
+			return nil
+		}
+	}
+	models["(*sync.Mutex).Lock"] = lock(1)
+	models["(*sync.Mutex).Unlock"] = lock(-1)
+	models["(*sync.RWMutex).Lock"] = lock(1)
+	models["(*sync.RWMutex).Unlock"] = lock(-1)
+	models["(*sync.RWMutex).RLock"] = lock(1)
+	models["(*sync.RWMutex).RUnlock"] = lock(-1)
+
+	var walk func(it *Interp, slot *Value, t types.Type, name string, wi watchInfo)
+	walk = func(it *Interp, slot *Value, t types.Type, name string, wi watchInfo) {
+		if st, ok := t.Underlying().(*types.Struct); ok {
+			if n, isN := t.(*types.Named); isN && n.Obj().Pkg() != nil && n.Obj().Pkg().Path() == "sync" {
+				return
+			}
+			sv, ok := (*slot).(Struct)
+			if !ok {
+				return
+			}
+			for i := 0; i < st.NumFields(); i++ {
+				walk(it, &sv[i], st.Field(i).Type(), name+"."+st.Field(i).Name(), wi)
+			}
+			return
+		}
+		w := wi
+		w.name = name
+		it.watch[slot] = w
+	}
+	reg := func(ro bool, once bool) modelFn {
+		return func(it *Interp, fr *frame, args []Value, fn *ssa.Function) Value {
+			ifc := args[0].(Iface)
+			p := ifc.V.(Ptr)
+			pt := ifc.T.(*types.Pointer)
+			wi := watchInfo{ro: ro}
+			if !ro && len(args) > 1 {
+				m := args[1].(Iface).V.(Ptr)
+				if once {
+					wi.once = m.P
+				} else {
+					wi.mu = m.P
+				}
+			}
+			name := pt.Elem().String()
+			if i := strings.LastIndex(name, "/"); i >= 0 {
+				name = name[i+1:]
+			}
+			walk(it, p.P, pt.Elem(), name, wi)
+			return nil
+		}
+	}
+	intrinsics["verifLocksReleased"] = func(it *Interp, fr *frame, args []Value, fn *ssa.Function) Value {
+		for _, n := range it.held {
+			if n != 0 {
+				return it.ctx.False
+			}
+		}
+		return it.ctx.True
+	}
+	intrinsics["verifWatch"] = reg(false, false)
+	intrinsics["verifWatchRO"] = reg(true, false)
+	intrinsics["verifWatchOnce"] = reg(false, true)
+}
+
+// checkAccess is called for every load/store through a slot pointer when watches exist.
+func (it *Interp) checkAccess(slot *Value, write bool) {
+	w, ok := it.watch[slot]
+	if !ok {
+		if st, isS := (*slot).(Struct); isS {
+			for i := range st {
+				it.checkAccess(&st[i], write)
+			}
+		}
+		return
+	}
+	bad := ""
+	switch {
+	case w.ro:
+		if write {
+			bad = "write to shared read-only state " + w.name
+		}
+	case w.once != nil:
+		if it.inOnce[w.once] == 0 && !it.onceDone[w.once] {
+			bad = "access to " + w.name + " outside of / not ordered after its sync.Once"
+		}
+	case w.mu != nil:
+		if it.held[w.mu] == 0 {
+			if write {
+				bad = "write to " + w.name + " without holding the mutex"
+			} else {
+				bad = "read of " + w.name + " without holding the mutex"
+			}
+		}
+	}
+	if bad != "" && !it.accessSeen[bad] {
+		it.accessSeen[bad] = true
+		it.findings = append(it.findings, Finding{Kind: "assert", Label: bad, Inputs: it.safeModelInputs()})
 	}
 }
